@@ -232,10 +232,17 @@ def run_case(sc, opts):
                 return gen()
             raise AssertionError("scenario: unknown awaitable style %r" % (style,))
 
+        def err_text(r):
+            """class and message of the error a result carries (None for a successful one): fourth field of `save` / `hook.post`"""
+            e = getattr(r, "error", None)
+            if not getattr(r, "is_err", False) or e is None:
+                return None
+            return ("%s: %s" % (type(e).__name__, e))[:120]
+
         class RB(AsyncResultBackend):
             async def set_result(self, tid, r):
                 i = idx(tid)
-                log.add("save", i)
+                log.add("save", i, err_text(r))
                 try:
                     if sc["msgs"][i].get("save_fail"):
                         await afail(i, "backend down")
@@ -258,7 +265,7 @@ def run_case(sc, opts):
 
             async def post_execute(self, m, r):
                 i = idx(m.task_id)
-                log.add("hook.post", i)
+                log.add("hook.post", i, err_text(r))
                 if sc["msgs"][i].get("post_fail"):
                     await afail(i, "hook")
 
@@ -475,6 +482,9 @@ def run_case(sc, opts):
                 def ts(i: int, dur: int, out: str, extra: Any = None):
                     log.add("body.in", i)
                     try:
+                        if dur > 0:
+                            # a sync function that takes (virtual) time: only in a pool that can account for it (vloop.VPool)
+                            vloop.thread_vsleep(dur)
                         return finish(i, out)
                     finally:
                         log.add("body.out", i)
@@ -676,6 +686,8 @@ def run_case(sc, opts):
                     log.add("STOP")
                     for e in lv["events"]:
                         e.set()
+        elif sc.get("entry") == "start_listen":
+            r = ev = None           # start_listen itself builds the receiver (below)
         else:
             if sc.get("cli") is not None or sc.get("api") is not None:
                 # configuration through the real command-line path / through the real run_receiver_task (harness/cli_glue.py)
@@ -690,25 +702,99 @@ def run_case(sc, opts):
             def request_stop():
                 ev.is_set() or ev.set()
 
-        if sc.get("stop_us") is not None:
-            loop.call_later(sc["stop_us"] / 1e6, request_stop if live is not None else ev.set)
-        so = sc.get("stop_on")
-        if so:
-            # a stop request placed relative to something that happens in the run: `plus_us` after the first raw-log entry
-            # (tag, msg) - e.g. while message i's body is handling its cancellation
+        hz = sc["horizon_us"] / 1e6
+
+        def on_event(so, fn):
+            """`fn` runs `plus_us` after the first raw-log entry (tag, msg) - something that happens in the run"""
             plain_add, main_thread = log.add, threading.current_thread()
+            armed = []
 
             def add(tag, a=None, b=None):
                 plain_add(tag, a, b)
-                if tag == so["tag"] and a == so["msg"] and not box.get("so_armed") and threading.current_thread() is main_thread:
-                    box["so_armed"] = True
-                    loop.call_later(so.get("plus_us", 0) / 1e6, request_stop)
+                if tag == so["tag"] and a == so["msg"] and not armed:
+                    if threading.current_thread() is main_thread:
+                        armed.append(1)
+                        loop.call_later(so.get("plus_us", 0) / 1e6, fn)
+                    elif so.get("threads"):
+                        # the entry was logged by a pool thread (the body of a sync function): the clock is held while
+                        # that thread runs, so the timer is armed at the same virtual instant
+                        armed.append(1)
+                        loop.call_soon_threadsafe(lambda: loop.call_later(so.get("plus_us", 0) / 1e6, fn))
 
             log.add = add
-        hz = sc["horizon_us"] / 1e6
-        loop.call_later(hz - 0.001, lambda: log.add("CUTMARK"))
+
+        def arm(request_stop, at_instant=None):
+            if sc.get("stop_us") is not None:
+                loop.call_later(sc["stop_us"] / 1e6, at_instant or request_stop)
+            so = sc.get("stop_on")
+            if so:
+                # a stop request placed relative to something that happens in the run: `plus_us` after the first raw-log entry
+                # (tag, msg) - e.g. while message i's body is handling its cancellation
+                on_event(so, request_stop)
+            loop.call_later(hz - 0.001, lambda: log.add("CUTMARK"))
+
+        def late_at():
+            for t in sc.get("late") or []:
+                if t["when"] == "at":
+                    loop.call_later(t["at_us"] / 1e6, register, t)
+
+        async def observe(listening):
+            try:
+                await asyncio.wait_for(listening, hz)
+                log.add("RETURN")
+                # keep observing for a moment: nothing may start after the return
+                await asyncio.sleep(1.0)
+            except asyncio.TimeoutError:
+                log.add("CUT")
+            box["n"] = len(log.ev)      # what follows is the harness' own clean-up (cancelling left-over tasks)
+
+        if sc.get("entry") == "start_listen":
+            # the worker is RUN by the real start_listen (cli_glue.run_start_listen), on the loop start_listen created and
+            # configured; this coroutine only prepared the broker / the messages on that loop.  The receiver type handed to
+            # --receiver is Receiver's own code + the logging shims; its listen() arms the scenario (stop request = the real
+            # signal handler start_listen installed, called from a timer) and cuts it at the horizon.
+            eo = sc.get("entry_opts") or {}
+
+            class EntryReceiver(Receiver):
+                def __init__(self, *a, **kw):
+                    super().__init__(*a, **kw)
+                    shims.wrap_receiver(self, log, ident, A, sc["P"])
+
+                async def listen(self, finish_event):
+                    # the very event object the signal handlers of start_listen set: made a logging one in place
+                    ev = shims.adopt_event(finish_event, log)
+                    handlers = box["ctl"]["signal"].handlers
+                    import signal as _sig
+                    signum = getattr(_sig, "SIG" + eo.get("sig", "INT"))
+
+                    def request_stop():
+                        handlers[signum](signum, None)
+                        if eo.get("again_us") is not None and not box.get("again"):
+                            box["again"] = True      # the operator repeats the signal (still below the hard-kill count)
+                            loop.call_later(eo["again_us"] / 1e6, lambda: handlers[signum](signum, None))
+
+                    arm(request_stop)
+                    after_construction()
+                    late_at()
+                    await observe(super().listen(ev))
+
+            box["entry"] = dict(br=br, receiver=EntryReceiver)
+            box["n"] = 0
+            return log
+
         if live is not None:
+            import taskiq.api.receiver as apimod
             from taskiq.api import run_receiver_task
+            arm(request_stop)
+            if live.get("vpool"):
+                # the pool run_receiver_task builds for sync functions: the real ThreadPoolExecutor, with the account the
+                # virtual clock needs (sync bodies that take virtual time, more of them in flight than threads)
+                def pool(max_workers=None, **kw):
+                    return vloop.VPool(loop, max_workers=max_workers,
+                                       on_shutdown=lambda w, c: log.add("pool.shutdown", bool(w), bool(c)), **kw)
+
+                box["apimod"] = (apimod, apimod.ThreadPoolExecutor)
+                apimod.ThreadPoolExecutor = pool
             akw = dict(live.get("kw") or {})
             if akw.get("ack_time") is not None:
                 akw["ack_time"] = AcknowledgeType(akw["ack_time"])
@@ -716,14 +802,29 @@ def run_case(sc, opts):
             # registrations "after the Receiver exists": the worker's first step builds the receiver and starts listening; this
             # callback is queued behind that step and ahead of the first step of the prefetcher it starts
             loop.call_soon(after_construction)
-            for t in sc.get("late") or []:
-                if t["when"] == "at":
-                    loop.call_later(t["at_us"] / 1e6, register, t)
+            late_at()
+            cn = live.get("cancel")
+            if cn:
+                # the application that embeds the receiver cancels the run_receiver_task task (the only way it has to end it)
+                # and goes on running its loop
+                def cancel_worker():
+                    if not box.get("cancelled"):
+                        box["cancelled"] = True
+                        log.add("CANCEL")
+                    if not worker.done():
+                        worker.cancel()
+                        loop.call_later(0.25, cancel_worker)     # (a cancellation arriving while listen() fails can be lost)
+
+                if cn.get("on"):
+                    on_event(dict(cn["on"], threads=True), cancel_worker)
+                else:
+                    loop.call_later(cn["at_us"] / 1e6, cancel_worker)
             done, _ = await asyncio.wait({worker}, timeout=hz)
             if done:
                 how = "cancelled" if worker.cancelled() else type(worker.exception()).__name__ if worker.exception() else "returned"
                 log.add("WORKER.END", None, how)
-                await asyncio.sleep(1.0)
+                # (after a cancellation by the application: its loop goes on - observe what the callbacks left behind do)
+                await asyncio.sleep(1.0 if not cn else max(1.0, hz - loop.time()))
             else:
                 log.add("CUT")
             box["n"] = len(log.ev)
@@ -735,21 +836,15 @@ def run_case(sc, opts):
                 worker.cancel()
                 await asyncio.wait({worker}, timeout=1)
             return log
+        arm(request_stop, ev.set)
         after_construction()
-        for t in sc.get("late") or []:
-            if t["when"] == "at":
-                loop.call_later(t["at_us"] / 1e6, register, t)
-        try:
-            await asyncio.wait_for(r.listen(ev), hz)
-            log.add("RETURN")
-            # keep observing for a moment: nothing may start after the return
-            await asyncio.sleep(1.0)
-        except asyncio.TimeoutError:
-            log.add("CUT")
-        box["n"] = len(log.ev)      # what follows is the harness' own clean-up (cancelling left-over tasks)
+        late_at()
+        await observe(r.listen(ev))
         return log
 
-    if sc.get("cli") is not None:
+    if sc.get("entry") == "start_listen":
+        pass
+    elif sc.get("cli") is not None:
         import cli_glue
         from taskiq import InMemoryBroker
         # before the virtual loop exists: start_listen runs its own (throw-away) loop; the keyword arguments it
@@ -767,8 +862,31 @@ def run_case(sc, opts):
         box["cli_kw"] = cli_glue.receiver_kwargs_via_api(akw, InMemoryBroker())
     box["global_names"] = []
     try:
-        log = vloop.run(main)
+        if sc.get("entry") == "start_listen":
+            import cli_glue
+            ctl = box["ctl"] = {}
+
+            def get_broker(loop):
+                # start_listen is importing the broker: its loop exists and is the current one.  Prepare the scripted broker,
+                # the tasks and the messages on that loop (no virtual time passes)
+                loop.run_until_complete(main(loop))
+                return box["entry"]["br"]
+
+            try:
+                cli_glue.run_start_listen(sc["cli"], get_broker, lambda: box["entry"]["receiver"], vloop.VLoop, ctl,
+                                          broker_as=(sc.get("entry_opts") or {}).get("broker_as", "object"))
+            finally:
+                for lp in ctl["policy"].created if "policy" in ctl else []:
+                    if not lp.is_closed():
+                        vloop.finish(lp)
+            log = box["log"]
+        elif (sc.get("live") or {}).get("vpool"):
+            log = vloop.run_on(vloop.PLoop(), main)
+        else:
+            log = vloop.run(main)
     finally:
+        if box.get("apimod"):
+            box["apimod"][0].ThreadPoolExecutor = box["apimod"][1]
         rmod.asyncio = REAL_ASYNCIO
         # process-wide state of taskiq this case touched (the child process runs many cases)
         for n in box["global_names"]:
